@@ -1,5 +1,5 @@
 SPECIFICATION Spec
 CONSTANTS
   MaxLen = 4
-INVARIANTS LdConsistent TablesTotal NegotiationSound
+INVARIANTS LdConsistent TablesTotal NegotiationSound DecodedValuesUsable
 CHECK_DEADLOCK FALSE
